@@ -32,6 +32,7 @@ TRUSTED_BASE = ["reference evaluator rtc/dag.py", "cloudpickle"]
 ASSUMPTIONS = ["user functions deterministic"]
 
 REWRITES = ["copy", "pickle", "join", "or", "update_renames", "update_renames", "renames-original", "scope", "scope-partial", "scope-partial",
+            "scope-refused",
             "scope-and-remove", "nest", "nest-all", "simplify", "split_disconnected"]
 
 
@@ -182,6 +183,18 @@ def apply_rewrite(name, p, d, names, rng):
             q.update_scope(None, inputs="*", outputs="*")
             return [q], {k: v.split(".")[-1] for k, v in names.items()}
         return [q], {k: sc + "." + v.split(".")[-1] for k, v in names.items()}
+    if name == "scope-refused":
+        # a scope that is also the name of an output is refused; the pipeline it was tried on stays what it was
+        q = p.copy()
+        outs = [o for f in q.functions[1:] for o in (f.output_name if isinstance(f.output_name, tuple) else (f.output_name,))
+                if "." not in o]
+        if not outs:
+            raise NotApplicable
+        try:
+            q.update_scope(rng.choice(outs), inputs="*", outputs="*")
+        except ValueError:
+            return [q], names  # (refused: q must still be the pipeline p was)
+        raise NotApplicable  # (accepted after all: nothing to demand here)
     if name == "scope-partial":
         # explicit input sets: one or two different scopes for disjoint sets of root arguments; names of intermediates
         # listed among the inputs are not inputs of the pipeline and are left alone
